@@ -4,11 +4,13 @@
 //!   wbverif replay <ID> <file>
 //!   wbverif list
 
+#![allow(dead_code)]
 mod evidence;
 mod interp;
 mod model;
 mod ops;
 mod props;
+mod server;
 mod util;
 
 use util::{RunCfg, Tier};
@@ -81,7 +83,8 @@ fn main() {
                 workers,
                 scale,
             };
-            // a panic anywhere (harness or code under test on a harness thread) must not look like success
+            interp::init_base_config();
+            util::install_panic_hook();
             let code = props::run(&cfg);
             util::remove_scratch(&prop);
             std::process::exit(code);
@@ -90,6 +93,8 @@ fn main() {
             if args.len() < 4 {
                 usage();
             }
+            interp::init_base_config();
+            util::install_panic_hook();
             let code = props::replay(&args[2], &args[3]);
             std::process::exit(code);
         }
